@@ -167,7 +167,7 @@ class Harness:
     """A running `harness replay` process fed through its stdin."""
 
     def __init__(self, work, prop, systems, opts="", seed=1, thorough=False, small=False, keys="plain",
-                 reopen=False, workers=16, tag="r"):
+                 reopen=False, workers=16, tag="r", addr=""):
         self.out = work.path("sum.%s.json" % tag)
         cmd = [HARNESS, "replay", "--property", prop, "--systems", ",".join(systems), "--opts", opts,
                "--seed", str(seed), "--keys", keys, "--workers", str(workers), "--out", self.out,
@@ -179,6 +179,8 @@ class Harness:
             cmd.append("--small")
         if reopen:
             cmd.append("--reopen")
+        if addr:
+            cmd += ["--addr", addr]
         env = dict(os.environ)
         self.p = subprocess.Popen(cmd, stdin=subprocess.PIPE, stderr=subprocess.PIPE, env=env, bufsize=1 << 20)
         self.err = []
@@ -302,7 +304,7 @@ def findings_descriptions():
 
 def tour_stage(rep, work, name, module, constants, systems, opts="", keys="plain", thorough=False, small=False,
                reopen=False, invariants=(), properties=(), timeout=1800, heap="4g", view="View", emit="Emit",
-               simulate=None, hworkers=16, tlc_workers=1):
+               simulate=None, hworkers=16, tlc_workers=1, addr=""):
     """One TLC run whose emitted tours are replayed on `systems`.  `emit` names
     the ACTION_CONSTRAINT that prints tours (transition tours); modules that
     enumerate cases as initial states print from an invariant instead
@@ -311,7 +313,7 @@ def tour_stage(rep, work, name, module, constants, systems, opts="", keys="plain
     write_cfg(work.path(cfgfile), constants, view=view, action_constraint=emit, invariants=invariants,
               properties=properties)
     h = Harness(work, rep.prop, systems, opts=opts, seed=rep.seed, thorough=thorough, small=small, keys=keys,
-                reopen=reopen, workers=hworkers, tag=re.sub(r"\W", "_", name))
+                reopen=reopen, workers=hworkers, tag=re.sub(r"\W", "_", name), addr=addr)
     try:
         res = run_tlc(work, module + ".tla", cfgfile, sink=h.stdin, workers=tlc_workers, timeout=timeout, heap=heap,
                       simulate=simulate)
